@@ -84,6 +84,13 @@ Theorem C14_abf_interleavings_union_once : forall (A : Type) (G : GrpOps A), Grp
 Proof. exact interleavings_union_once. Qed.
 Print Assumptions C14_abf_interleavings_union_once.
 
+(* OPES with multiple walkers: after every deposition round all walkers hold the same kernel list, the
+   concatenation in rank order of what each walker contributed in each round (kernel compression off). *)
+Theorem C14_opes_same_list : forall (K : Type) (rounds : list (list K)) (n k : nat) (l : list K),
+  nth_error (opes_run rounds n) k = Some l -> l = concat rounds.
+Proof. exact @opes_same_list. Qed.
+Print Assumptions C14_opes_same_list.
+
 (* The code before the repair of read_state_data (last := G on restart) violated the statement:
    C14_abf_union_once with `run G true`:  a sample collected after the last exchange is lost by a restart. *)
 Theorem C14_abf_union_once_before_repair_refuted :
@@ -184,6 +191,9 @@ Example C14_ex_interleaving : match srun Zgrp ex_acts (sinit Zgrp 3) with
   | Some s => all_idle s = true /\ map (fun w => (wG w 0, wG w 1)) (walkers_of s) = [(7, 5); (7, 6); (7, 5)]
   | None => False end.
 Proof. exact ex_acts_run. Qed.
+
+Example C14_ex_opes : nth_error (opes_run [[1; 2]; [3; 4]] 2) 1 = Some [1; 2; 3; 4].
+Proof. reflexivity. Qed.
 
 Example C14_ex_exchange_agree : exists w, In w (exchange Zgrp 4 (init Zgrp 3)).
 Proof. eexists. left. reflexivity. Qed.
